@@ -67,7 +67,7 @@ def canon_categories(F, models):
     F.cat_atom_rename = {"%s::%s" % (last, a): "OperatorCategory::%s" % b for a, b in ren.items()}
     F.cat_path_rename = (adt["path"], CANON_CAT_PATH) if adt["path"] != CANON_CAT_PATH else None
     for m in models.values():
-        keep = {k: v for k, v in m.tb._cache.items() if k in ("roles", "rename", "roles_busy", "adt_names")}
+        keep = {k: v for k, v in m.tb._cache.items() if k in ("roles", "rename", "roles_busy", "adt_names", "encl_fixed_cat")}
         m.tb._cache.clear()
         m.tb._cache.update(keep)
         m._sum.clear()
